@@ -16,6 +16,7 @@ import (
 	"io"
 	"math/rand"
 	"os"
+	"path/filepath"
 	"sort"
 	"strconv"
 
@@ -164,6 +165,18 @@ func main() {
 	if !ok {
 		fmt.Fprintln(os.Stderr, "unknown op", os.Args[1])
 		os.Exit(2)
+	}
+	// the corpus runs first: inputs on which the machinery (or the implementation) once went wrong, kept as
+	// /verif/corpus/<op>/*.json (the directory is named by VERIF_CORPUS)
+	if dir := os.Getenv("VERIF_CORPUS"); dir != "" {
+		names, _ := filepath.Glob(filepath.Join(dir, os.Args[1], "*.json"))
+		sort.Strings(names)
+		for _, n := range names {
+			var in any
+			if err := json.Unmarshal(must(os.ReadFile(n)), &in); err == nil {
+				runOne(os.Args[1], op, in)
+			}
+		}
 	}
 	op.gen(func(in any) { runOne(os.Args[1], op, in) })
 }
